@@ -167,7 +167,24 @@ class Trace(object):
         self.episodes_closed = 0
 
 
-def run(case, filter_factory=DirectFilter, stop_on_exception=True):  # noqa: C901
+def state_snapshot(state):
+    """Deep, comparable snapshot of the plugin's tracking state (read-only attribute access)."""
+    pos = state.position
+    lr = state.lastRetraction
+    return {
+        "pos": tuple((a.current, a.offset, a.homeOffset, a.absoluteMode, a.unitMultiplier)
+                     for a in (pos.X_AXIS, pos.Y_AXIS, pos.Z_AXIS, pos.E_AXIS)),
+        "feed": (state.feedRate, state.feedRateUnitMultiplier),
+        "enabled": state.isExclusionEnabled(),
+        "excluding": state.excluding,
+        "retraction": None if lr is None else (lr.firmwareRetract, lr.extrusionAmount, lr.feedRate,
+                                                lr.recoverExcluded, lr.allowCombine, lr.originalCommand),
+        "pending": [(k, dict(v) if hasattr(v, "items") else v) for k, v in state.pendingCommands.items()],
+        "regions": [r.toDict() for r in state.excludedRegions],
+    }
+
+
+def run(case, filter_factory=DirectFilter, stop_on_exception=True, observer=None):  # noqa: C901
     """Execute a concrete case.  case = {"config":…, "regions":[…], "prog":[item…]} with items
     ["g", cmd] | ["at", cmd, params, streaming?] | ["reg", region]."""
     config = case.get("config", {})
@@ -188,6 +205,8 @@ def run(case, filter_factory=DirectFilter, stop_on_exception=True):  # noqa: C90
         it.regions = list(regions)
         it.u_before = pu.snap()
         it.f_before = pf.snap()
+        if observer is not None:
+            it.state_before = state_snapshot(flt.state)
         if it.kind == "reg":
             regions.append(dict(item[1]))
             try:
@@ -246,6 +265,8 @@ def run(case, filter_factory=DirectFilter, stop_on_exception=True):  # noqa: C90
             it.f_steps.append((st, pf.snap()))
         it.u_after = pu.snap()
         it.open_after, it.enabled_after = is_open, enabled
+        if observer is not None:
+            observer(it, flt)
         tr.items.append(it)
         if it.exception and stop_on_exception:
             break
